@@ -450,6 +450,24 @@ func (x *Exec) evalClauseDual(c *Clause, target *ssa.Function, cur, old *State, 
 			args = append(args, d)
 			continue
 		}
+		if name == "rangeindex" && c.Loop > 0 && target == x.fn {
+			bound := false
+			for _, li := range x.loops {
+				if li.ordinal != c.Loop {
+					continue
+				}
+				for _, a := range x.rangeIndexCells(li) {
+					if t, ok := cur.cells[a]; ok {
+						args = append(args, dualOf(Val{T: t}))
+						bound = true
+					}
+					break
+				}
+			}
+			if bound {
+				continue
+			}
+		}
 		if results != nil {
 			if name == "result" && len(results) >= 1 {
 				args = append(args, dualOf(results[0]))
